@@ -614,7 +614,7 @@ class Event:
 class Interp:
     """Abstract interpreter of one function (with bounded inlining of repository helpers)."""
 
-    def __init__(self, prog, inline=None, no_inline=(), max_depth=8, opaque_self_methods=(), inline_all_repo=False, copy_is_identity=True, commutative=()):
+    def __init__(self, prog, inline=None, no_inline=(), max_depth=8, opaque_self_methods=(), inline_all_repo=False, copy_is_identity=True, commutative=(), resolve_new_objects=False):
         self.prog = prog
         self.inline = set(inline or ())  # extra qualname suffixes to inline
         self.no_inline = set(no_inline)
@@ -624,6 +624,7 @@ class Interp:
         self.inline_all_repo = inline_all_repo
         self.opaque_self_methods = set(opaque_self_methods)
         self.copy_is_identity = copy_is_identity
+        self.resolve_new_objects = resolve_new_objects
         self.commutative = set(commutative)
         self.loop_doms = []
         self.paths = []
@@ -823,6 +824,7 @@ class Frame:
 
     def _exec_for_body(self, s, st, elems):
         cur = st
+        exited = []  # states that left the loop through `break` (in order): they skip the rest and the else clause
         for e in elems:
             skip = None
             if _maybe_absent(e):
@@ -845,15 +847,28 @@ class Frame:
                 elif oc[0] == "raise":
                     # a raising path ends the computation: it contributes no value to what follows
                     self.I.notes.append("raise inside a loop of %s: %s" % (self.fi.qualname, oc[1]))
+                elif oc[0] == "break":
+                    exited.append(st2)
                 else:
                     raise Unsupported("%s inside a loop of %s" % (oc[0], self.fi.qualname))
             if not cont:
+                if exited:
+                    cur = None
+                    break
                 raise Unsupported("loop body never completes in %s" % self.fi.qualname)
             cur = merge_states(cont, len(st.guards))
             cur.guards = list(st.guards)
-        if s.orelse:
-            return self.exec_block(s.orelse, cur)
-        return [(cur, ("fall",))]
+        tail = []
+        if cur is not None:
+            tail = self.exec_block(s.orelse, cur) if s.orelse else [(cur, ("fall",))]
+        if not exited:
+            return tail
+        # ordered merge: the first break condition that holds wins, else the loop ran to its end
+        falls = [t for t, oc in tail if oc[0] == "fall"]
+        others = [(t, oc) for t, oc in tail if oc[0] != "fall"]
+        merged = merge_states(exited + falls, len(st.guards))
+        merged.guards = list(st.guards)
+        return others + [(merged, ("fall",))]
 
     def domain_elements(self, it, node):
         """Pseudo-elements of an iteration domain (exact unrolling when the domain is concrete)."""
@@ -917,6 +932,11 @@ class Frame:
         if isinstance(target, ast.Subscript):
             base = self.eval(target.value, st)
             idx = self.eval_index(target.slice, st)
+            sl = target.slice
+            if (isinstance(sl, ast.Slice) and sl.lower is None and sl.upper is None and sl.step is None) or (isinstance(sl, ast.Constant) and sl.value is Ellipsis):
+                # dst[:] = v / dst[...] = v : the whole content of the array is replaced
+                self.I.events.append(Event("store_content", [base, v], {}, st.guards, target))
+                return
             if isinstance(base, ADict):
                 # record the event against the dictionary as it was, then grow the abstract dictionary
                 self.I.events.append(Event("store_sub", [ADict(dict(base.items), list(base.doms)), idx, v], {}, st.guards, target))
@@ -1005,6 +1025,14 @@ class Frame:
             a = base.as_atom()
             if a is not None and a[0] == "obj":
                 return self.I.prog.classes.get(a[1])
+            # objects of the current class created in this method: cls.__new__(cls) / ClassName(...), possibly updated since
+            while a is not None and a[0] == "upd":
+                a = key_atom(a[2])
+            if a is not None and self.cls is not None and self.I.resolve_new_objects:
+                if a[0] == "mcall" and a[1] == "__new__":
+                    return self.cls
+                if a[0] == "call" and a[1] == "new:" + self.cls.name:
+                    return self.cls
         return None
 
     def e_BinOp(self, e, st):
@@ -1148,6 +1176,10 @@ class Frame:
     def e_Subscript(self, e, st):
         base = self.eval(e.value, st)
         idx = self.eval_index(e.slice, st)
+        if isinstance(e.slice, ast.Slice) and e.slice.lower is None and e.slice.upper is None and isinstance(e.slice.step, ast.UnaryOp) and isinstance(e.slice.step.op, ast.USub) and isinstance(e.slice.step.operand, ast.Constant) and e.slice.step.operand.value == 1:
+            if isinstance(base, (AList, ATuple)) and not getattr(base, "doms", None):
+                return type(base)(list(reversed(base.items)))
+            return Poly.atom(("call", "reversed", (vkey(base),), ()))
         slot = ("@sub", vkey(base), vkey(idx))
         if slot in st.env:
             return st.env[slot]
@@ -1278,6 +1310,20 @@ class Frame:
     def call_named(self, dotted, shown, args, kwargs, st, node):
         name = self.canonical_name(dotted)
         short = name.split(".")[-1]
+        # numpy in-place idioms are canonicalised to one effect: store_content(destination, value)
+        if name == "np.copyto" and len(args) >= 2:
+            self.I.events.append(Event("store_content", [args[0], args[1]], {}, st.guards, node))
+            return None
+        if "out" in kwargs and name in ("np.add", "np.subtract", "np.multiply", "np.divide", "log", "exp", "log1p"):
+            out = kwargs["out"]
+            rest = {k: v for k, v in kwargs.items() if k not in ("out", "order", "dtype")}
+            if name in ("np.add", "np.subtract", "np.multiply", "np.divide") and len(args) == 2 and not rest:
+                a, b = as_term(args[0]), as_term(args[1])
+                res = {"np.add": a + b, "np.subtract": a - b, "np.multiply": a * b, "np.divide": a / b}[name]
+            else:
+                res = self.call_named(dotted, shown, args, rest, st, node)
+            self.I.events.append(Event("store_content", [out, res], {}, st.guards, node))
+            return res
         # builtins with abstract semantics
         if dotted == "len" and len(args) == 1:
             v = args[0]
@@ -1310,6 +1356,10 @@ class Frame:
             concrete = isinstance(it, (AList, ATuple)) and not getattr(it, "doms", None)
             doms = list(getattr(it, "doms", [])) if isinstance(it, AList) else ([] if concrete else [vkey(it)])
             return AList([self.apply_ref(fref, [e], st, node) for e in els], doms)
+        if dotted == "reversed" and len(args) == 1 and isinstance(args[0], (AList, ATuple)) and not getattr(args[0], "doms", None):
+            return AList(list(reversed(args[0].items)))
+        if dotted == "dict" and len(args) == 1 and not kwargs and isinstance(args[0], Poly) and args[0].as_atom() is not None and args[0].as_atom()[0] in ("attr", "v", "sub"):
+            return args[0]  # a copy of a mapping: value semantics
         if dotted in ("zip", "enumerate"):
             return Poly.atom(("call", dotted, tuple(vkey(a) for a in args), tuple(sorted((k, vkey(v)) for k, v in kwargs.items()))))
         if dotted == "float" and len(args) == 1 and isinstance(args[0], str):
